@@ -20,7 +20,7 @@ from ..anf import Rat, sym
 from ..guards import (G, TRUE, FALSE, g_and, g_not, g_or, g_equiv, g_implies, g_sat, compare, canon_sign, OPS)
 from ..gvn import Frame, Obj, PW, Vec, cases_of, veq, mk_pw, Unsupported
 from ..intervals import single_atom, split_const
-from .common import RuleCtx, _short, range_args, sign_set_name
+from .common import section, RuleCtx, _short, range_args, sign_set_name
 
 C = Rat.const
 
@@ -96,8 +96,8 @@ def run(ctx):
     rc.expect_equal("H2", fi, out.value(), want, "_ccw(a, b, c) == cross(b - a, c - a)")
     # ---- H3 / H4 -------------------------------------------------------------------
     for name, keep in (("graham_scan_lower", OPS["<="]), ("graham_scan_upper", OPS[">="])):
-        _chain(rc, name, keep)
-    _graham(rc)
+        section(rc, _chain, name, keep)
+    section(rc, _graham)
     res.assumptions += ["x-sorted input for the monotone chains", "real-number reading of the orientation polynomial"]
     res.not_decided += ["equality with the brute-force hull", "behaviour of the angular sort under ties beyond the comparator's definition"]
     from .common import hidden_state as _hidden_state
@@ -319,8 +319,15 @@ def _graham(rc: RuleCtx):
         res.ok("H5", "convex_hull.graham_scan:sorted", "scans _sort_points(points)")
         spname = srt[0].targets[0].id
     else:
-        res.violation("H5", mod, fi.name, fi.node, "the scan does not run over _sort_points(points)", "", "sorted_points = _sort_points(points)", construct="graham sort")
-        return
+        other = [st for st in fi.node.body if isinstance(st, ast.Assign) and isinstance(st.value, ast.Call) and isinstance(st.value.func, ast.Name)
+                 and st.value.func.id == "_sort_points" and len(st.value.args) == 1]
+        if len(other) == 1 and ast.unparse(other[0].value.args[0]) != "points":
+            # the angular sort is applied to something else than the input rows (its comparator measures distances on whole rows)
+            res.violation("H5", mod, fi.name, other[0], "the scan does not run over _sort_points(points): the angular sort is applied to a different array",
+                          ast.unparse(other[0].value), "sorted_points = _sort_points(points)", construct="graham sort")
+            return
+        # (not finding the text is not a fact about the code: the sort may be reached another way)
+        raise AnalysisError("graham_scan: no top-level `sorted = _sort_points(points)` in front of the scan - shape not recognised")
     fors = [st for st in fi.node.body if isinstance(st, ast.For)]
     if not fors:
         # the scan itself may live in a private helper that is handed the sorted points
